@@ -299,6 +299,51 @@ def run(ctx):
                        any(model.strip_targs(r).endswith('_data::timeout') for r in mld.subtree_refs(mld.N(atom)['ch'][0])) and pol is False)
     ctx.check(all(mld.only_through(r, g) for r in q.nonfalse_returns(mld)), R7, 'load:not-expired', 'memory storage returns an expired record', mld.where)
 
+    # ---------------- R8 valid_sid is exact (E3): accepts exactly "I" + 32 lower-case hex digits
+    R8 = ctx.rule('C06.R8', 'valid_sid accepts exactly "I" followed by 32 lower-case hexadecimal digits (per position over all byte values, per length 0..40)')
+    from vlib import absint
+    from vlib.absint import AV, Arr, Cell, Out
+    vs = P.fn(SID + '::valid_sid')
+    HEXL = set(range(48, 58)) | set(range(97, 103))
+    # the decision on one position must not depend on the other positions: every branch condition of the loop body reads only the current character
+    lps = q.loops(vs)
+    ctx.check(len(lps) == 1, R8, 'valid_sid:single-scan-loop', 'expected one loop over the 32 digits', vs.where)
+    hooks = {'std::basic_string::substr': lambda it, fn, i, env: Out('substr')}
+
+    def run_with(chars):
+        def run(it):
+            it.hooks = hooks
+            arr = Arr([c if isinstance(c, AV) else AV.const(c) for c in chars] + [AV.const(0)], 'str:cookie')
+            return it.call_fn(vs, [Cell(arr), Cell(Out('id'))])
+        return run
+    nb = 0
+    bad = None
+    for L in range(0, 41):
+        for rep in (48, 102):
+            chars = [73] + [rep] * (L - 1) if L else []
+            for (bx, r, it) in absint.explore(P, run_with(chars), [[]]):
+                nb += 1
+                if not (isinstance(r, AV) and r.is_const()) or bool(r.lo) != (L == 33):
+                    bad = bad or ('length %d' % L, r)
+    ctx.check(bad is None, R8, 'valid_sid:length-exactly-33', ('%s -> %r' % bad) if bad else '', vs.where, detail={'runs': nb})
+    for pos in range(33):
+        bad = None
+        nb = 0
+        for rep in (48, 102):
+            def runp(it, pos=pos, rep=rep):
+                chars = [AV.const(73)] + [AV.const(rep)] * 32
+                chars[pos] = it.inbyte(0)
+                return run_with(chars)(it)
+            for (bx, r, it) in absint.explore(P, runp, [[(-128, 127)]]):
+                nb += 1
+                lo, hi = bx[0]
+                vals = set(range(lo, hi + 1))
+                want = vals <= ({73} if pos == 0 else HEXL)
+                none = not (vals & ({73} if pos == 0 else HEXL))
+                if not (isinstance(r, AV) and r.is_const()) or not (want or none) or bool(r.lo) != want:
+                    bad = bad or ('char %d..%d at position %d' % (lo, hi, pos), r)
+        ctx.check(bad is None, R8, 'valid_sid:position-%d:exact-alphabet' % pos, ('%s -> %r' % bad) if bad else '', vs.where, detail={'boxes': nb})
+    ctx.assume('valid_sid decides each position independently (single loop whose body tests only the current character); R8 varies one position at a time with the others fixed to "0" and to "f"')
     ctx.floor(R1, 10)
     ctx.floor(R2, 10)
     ctx.floor(R3, 5)
@@ -306,6 +351,7 @@ def run(ctx):
     ctx.floor(R5, 8)
     ctx.floor(R6, 4)
     ctx.floor(R7, 10)
+    ctx.floor(R8, 35)
 
 
 def lin_sym(f):
